@@ -43,6 +43,33 @@ def run(ctx):
         label = next((evs[i]["label"] for i in range(matched or 0, -1, -1) if evs[i]["e"] == "new"), "?")
         ctx.violation("bad-state %s" % label, "%s moved to a bad state or changed a rejected state: %s (%s)" % (label, json.dumps(bad), run_.violated or "no action matches"),
                       {"direction": "trace", "spec": "Trace_BadState", "event": bad, "trace": lines[max(0, (matched or 0) - 5):(matched or 0) + 1]})
+    # NUTS start-up heuristic next to the boundary of a target whose gradient is NaN outside the support (sqrt of a negative
+    # argument): 12 seeded chains, short watchdog -- "does not hang"
+    tpp = ctx.path("bad_probe.ndjson")
+    try:
+        sp = ctx.harness(["c14", "probe", "--seed", ctx.seed, "--out", tpp], timeout=120)[-1]
+    except vlib.ToolError as e:
+        if "timed out" not in str(e):
+            raise
+        sp = None
+        ctx.violation("hang NUTS sqrt-target start-up", "NUTSChain::run on sum(ln sqrt(x) - x), started within one step of the boundary, did not return "
+                      "within 120 s (12 chains of 9 transitions take about a second): the sampler hangs on a NaN log-density / gradient",
+                      {"direction": "trace", "what": str(e)})
+    if sp is not None:
+        for p in sp["panics"]:
+            ctx.violation("panic %s" % p[:80], "NUTS panicked on the sqrt target: %s" % p[:300], {"direction": "trace", "panic": p})
+        pl = open(tpp).read().splitlines()
+        pev = [json.loads(x) for x in pl]
+        okp, mp, runp = ctx.validate_trace("Trace_BadState", tpp, timeout=600)
+        ctx.cov["evaluations"] += len(pev)
+        ctx.cov["distinct_nontrivial"] += sum(1 for e in pev if e["e"] == "nuts" and not e["moved"])
+        if okp:
+            ctx.cov["traces_validated_against_impl"] += sum(1 for e in pev if e["e"] == "new")
+        else:
+            bad = pev[mp] if mp is not None and mp < len(pev) else None
+            label = next((pev[i]["label"] for i in range(mp or 0, -1, -1) if pev[i]["e"] == "new"), "?")
+            ctx.violation("bad-state %s" % label, "%s moved to a bad state or changed a rejected state: %s (%s)" % (label, json.dumps(bad), runp.violated or "no action matches"),
+                          {"direction": "trace", "spec": "Trace_BadState", "event": bad, "trace": pl[max(0, (mp or 0) - 5):(mp or 0) + 1]})
     # HMC
     tph = ctx.path("bad_hmc.ndjson")
     try:
@@ -77,7 +104,7 @@ def run(ctx):
     ctx.selftest("trace: a move onto a zero-density state", not okc)
     ctx.cov["rule"] = ("MH.tla NeverToBadState over all 8^4 IEEE-kind tables and draw classes; AcceptKinds.tla: HMC accept rule and NUTS slice/divergence tests over "
                        "all kinds; traces: MH (library and 'wild' proposals producing inf/NaN) on half-line, box and sqrt targets in 1 and 3 dims (f32/f64), HMC "
-                       "with step sizes 0.3 .. 1e300 on the half-line, NUTS on NaN-region and divergent targets incl. overflowing step size; "
+                       "with step sizes 0.3 .. 1e300 on the half-line, NUTS on NaN-region and divergent targets incl. overflowing step size, and with the start-up heuristic next to the boundary of a NaN-gradient (sqrt) target; "
                        "non-trivial = transitions whose candidate was refused")
     ctx.cov["exhaustive"] = False
 
